@@ -106,6 +106,6 @@ def gen(rng, tier):
     ops = []
     for _ in range(budget(tier, 8, 120)):
         ops += burst_session(rng)
-    for _ in range(budget(tier, 40, 3000)):
+    for _ in range(budget(tier, 40, 1200)):
         ops += session(rng)
     return ops
